@@ -1,0 +1,31 @@
+//go:build verif
+// +build verif
+
+package mem
+
+import (
+	"sort"
+
+	"github.com/hack-pad/hackpadfs/keyvalue"
+)
+
+// NewStoreForVerif returns the package's real in-memory store, so verification harnesses can wrap it
+// (yield points, fault injection) and run keyvalue.FS on top of it. Only built with the 'verif' tag.
+func NewStoreForVerif() keyvalue.TransactionStore {
+	return newStore()
+}
+
+// KeysForVerif lists the keys currently held by a store returned from NewStoreForVerif.
+func KeysForVerif(s keyvalue.TransactionStore) []string {
+	st, ok := s.(*store)
+	if !ok {
+		return nil
+	}
+	var keys []string
+	st.records.Range(func(key, _ interface{}) bool {
+		keys = append(keys, key.(string))
+		return true
+	})
+	sort.Strings(keys)
+	return keys
+}
